@@ -7,7 +7,7 @@ HERE=$(cd "$(dirname "$0")/.." && pwd)
 OUT=${1:-$HERE/matrix_out}; shift || true
 mkdir -p "$OUT"
 SEEDS=${*:-$(ls -d "$HERE"/seeded/C??_? | xargs -n1 basename)}
-PROPS=$(python3 -c "import json;print(' '.join(c['property'] for c in json.load(open('$HERE/MANIFEST.json'))['checks']))")
+PROPS=$(python3 -c "import json;print(' '.join(c['property_id'] for c in json.load(open('$HERE/MANIFEST.json'))['checks']))")
 WT=$(mktemp -d /tmp/kv_matrix_XXXXXX)
 git -C /repo worktree add -q --detach "$WT" HEAD || exit 2
 trap 'git -C /repo worktree remove --force "$WT" 2>/dev/null; rm -rf "$WT"' EXIT
